@@ -717,7 +717,7 @@ func (ck *Check) runTreeStandIn(prop string) {
 	}
 	d := map[string]any{
 		"name":     "bounded/origins.Tree.Insert",
-		"kind":     "BOUNDED stand-in on the real code (not a proof): every ordered list of patterns up to the bound x every probe origin, Contains vs. the denotation from the property statement; node invariant on all reachable nodes; Elems()/ParsePattern round trip",
+		"kind":     "BOUNDED stand-in on the real code (not a proof): every ordered list of patterns up to the bound x every probe origin, Contains vs. the denotation from the property statement; node invariant on all reachable nodes; Elems()/ParsePattern round trip; plus every ordered list up to the bound over up to 20 patterns of the real grammar (IPv6/IPv4 literals, domains sharing byte suffixes): every rendered element is accepted by ParsePattern, rendering is a fixed point, wildcard-free inputs are contained before and after the round trip",
 		"function": "origins.Tree.Insert (+ Elems)",
 		"bound":    map[string]any{"max_list_length": maxList, "pattern_universe": universe, "probe_origins": probes},
 		"cases":    lists, "evaluations": evals, "nontrivial_lists": nontrivial,
